@@ -125,6 +125,7 @@ type fileCtx struct {
 	info  *types.Info
 	tmpN  int
 	needs map[string]bool // imports to add: "simrt", "simfs"
+	fn    string          // enclosing function declaration
 }
 
 func doPackage(rel string) error {
@@ -191,7 +192,7 @@ func doPackage(rel string) error {
 func (fc *fileCtx) site(pos token.Pos, kind string) *ast.BasicLit {
 	p := fc.fset.Position(pos)
 	st.sites[kind]++
-	return &ast.BasicLit{Kind: token.STRING, Value: strconv.Quote(fmt.Sprintf("%s:%d:%s", filepath.Base(p.Filename), p.Line, kind))}
+	return &ast.BasicLit{Kind: token.STRING, Value: strconv.Quote(fmt.Sprintf("%s:%d:%s@%s", filepath.Base(p.Filename), p.Line, kind, fc.fn))}
 }
 
 func (fc *fileCtx) tmp(prefix string) *ast.Ident {
@@ -248,7 +249,12 @@ func (fc *fileCtx) rewrite() {
 		switch d := d.(type) {
 		case *ast.FuncDecl:
 			if d.Body != nil {
+				fc.fn = d.Name.Name
+				if d.Recv != nil && len(d.Recv.List) == 1 {
+					fc.fn = recvName(d.Recv.List[0].Type) + "." + d.Name.Name
+				}
 				fc.block(d.Body)
+				fc.fn = ""
 			}
 		case *ast.GenDecl:
 			for _, s := range d.Specs {
@@ -311,6 +317,20 @@ func (fc *fileCtx) rewrite() {
 		f.Decls = append(f.Decls, &ast.GenDecl{Tok: token.VAR, Specs: []ast.Spec{&ast.ValueSpec{
 			Names: []*ast.Ident{ast.NewIdent("_")}, Values: []ast.Expr{sel(osName, "Getpid")}}}})
 	}
+}
+
+func recvName(e ast.Expr) string {
+	switch t := e.(type) {
+	case *ast.StarExpr:
+		return recvName(t.X)
+	case *ast.Ident:
+		return t.Name
+	case *ast.IndexExpr:
+		return recvName(t.X)
+	case *ast.IndexListExpr:
+		return recvName(t.X)
+	}
+	return "?"
 }
 
 // isPkg reports whether id denotes an imported package (true if unknown).
